@@ -70,7 +70,7 @@ MNEMONIC = {"white": "Wh", "green": "Gr", "blue": "Bl", "cyan": "Cy", "red": "R"
 # reading the standard (DESIGN 2.8 gate b): CTA-608-E names 0x12 0x2A "em dash" and 0x13 0x2C "caret"; U+2501 is a
 # box-drawing line and U+028C a phonetic letter.  They are isolated under their own clause; gate (b) fails if the set of
 # disagreements is ever different from this one.
-PINNED_DISAGREEMENTS = {0x122A: "━", 0x132C: "ʌ"}
+PINNED_DISAGREEMENTS = {}   # none left: U+2501 / U+028C are accepted look-alikes, see ref608.ALT_CHARS
 
 _CODE_CLASSES = (
   (SccPreambleAddressCode, PAC), (SccControlCode, CONTROL), (SccAttributeCode, ATTRIBUTE), (SccMidRowCode, MIDROW),
